@@ -150,6 +150,15 @@ CHECKS = {
         'dominated by check_is_fitted naming it (NotFittedError before use), and that no closure/lambda is stored on self. '
         "scikit-learn's own get_params/set_params/clone introspection and bit-level pickle equality are NOT decided."),
   note=TB),
+ 'C19': dict(
+  technique='static analysis: equivariance typing (abstract interpretation with the lattice Inv / Abs / Lin(W) / Dep for translations and Even / Odd / slot for within-tuple swaps) of every value reaching the fitted state',
+  text=('Decides two of the five relations: translation invariance of the fitted state (components_, threshold_, bounds_) for '
+        'Covariance, LMNN, ITML, MMC, SDML, LSML, SCML and their supervised variants, and invariance under swapping the two points of '
+        'each training pair (both pairs of a quadruplet) for ITML, MMC, SDML, LSML: data is used only through differences, centred '
+        'quantities, covariances, pairwise distances, fitted PCA/LDA directions and index results; an even number of odd factors reaches '
+        'every sink. Translation invariance of NCA, MLKR, LFDA, RCA (algebraic cancellations), rotation equivariance, scaling and '
+        'sample-permutation relations are NOT decided.'),
+  note=TB + ' check_input / _prepare_inputs summarised as value identities.'),
  'C20': dict(
   technique=ALG + '; library axioms (cholesky, eigh, orthogonality) as rewrite rules; option-table enumeration by constant-specialised abstract interpretation; path-condition rules',
   text=('Decides: every return path of components_from_metric satisfies L^T L = M in the matrix algebra (Cholesky needs the '
@@ -165,8 +174,7 @@ CHECKS = {
 }
 
 _PENDING = 'check not built yet in this revision of /verif (see DESIGN.md section 9 build order); nothing is claimed for it'
-NOT_APPLICABLE = {p: _PENDING for p in
-  ['C19']}
+NOT_APPLICABLE = {}
 NOT_APPLICABLE['C16'] = ('optimality of a cut-off over a labelled multiset of distances with ties is a property of runtime '
                          'values; no structural necessary condition of it exists that a sound static rule can name without '
                          'also firing on correct tie-aware rewrites; its parameter-validation sentence is checked as C06(7)')
